@@ -9,6 +9,11 @@ x $XONSH_CACHE_SCRIPTS x $XONSH_CACHE_EVERYTHING.  Time is a logical clock writt
 (edit = +2 ticks, a cache file written by a run gets the current tick).  rewrite-header keeps the
 entry's mtime and also swaps the payload for a loadable code object printing a tell-tale marker, so
 that "never executed" is observable (and no real foreign bytecode is ever at risk of being run).
+A second, smaller BFS (the symlink space) addresses the SAME script directly, through a symlink to the
+file (l.xsh -> s.xsh), through a symlinked directory component (ld/s.xsh) and through the symlink
+re-pointed to another, older real file; edits and touches hit the target, the links keep their own
+(old, logical) lstat mtime.  The main space also contains one run through the file symlink and
+near-miss version stamps (proper extensions / prefixes of the running version on one line).
 Cache files are located BY EFFECT (one probing cache-on run per unit into an empty directory), never
 by re-deriving xonsh's naming: units (script / (code string, mode)) that land in one file are one
 shared model entry, so a scheme that lets modes or code strings share an entry is judged behaviourally.
@@ -57,8 +62,15 @@ MODES = ("single", "exec")
 # WHICH FILE holds a unit's entry is discovered by effect (core.Rig.discover); units that the
 # implementation maps to one file form ONE shared entry of the model (with text / mode / namespace
 # provenance), units with distinct files have distinct entries.  Nothing here knows the naming scheme.
-UNITS = ["S"] + [f"C{j}:{mode}" for j in range(len(CODES)) for mode in MODES]
+# script units = the ways a script is addressed (core.VIAS): S directly, SL through the symlink l.xsh,
+# SD through a symlinked directory component, OL = the same symlink re-pointed to the OTHER real file.
+SCRIPT_UNITS = {"S": "direct", "SL": "link", "SD": "dirlink", "OL": "link-other"}
+VIA_UNIT = {v: u for u, v in SCRIPT_UNITS.items()}
+UNITS = list(SCRIPT_UNITS) + [f"C{j}:{mode}" for j in range(len(CODES)) for mode in MODES]
 TEXT_PROV = re.compile(r"^[BC]\d+$")
+OTHER_PROV = "B9"  # provenance label of the other real script (core.OTHER_BODY)
+NEAR_HDR_QUICK = [("S", "xonsh+digit"), ("S", "py+prefix"), ("C1:single", "py+dev"), ("C1:single", "xonsh+prefix")]
+NEAR_HDR_THOROUGH = [(u, k) for u in ("S", "C1:single") for k in ("xonsh+digit", "xonsh+prefix", "py+dev", "py+prefix")]
 ALL_SW = [tuple(bool(b) for b in bits) for bits in itertools.product((1, 0), repeat=4)]
 CODE_SW_QUICK = [(True, False, True, False), (True, True, True, False), (True, False, True, True), (True, True, True, True)]
 
@@ -67,15 +79,26 @@ def _sw(ev_sw):
     return tuple(bool(x) for x in ev_sw)
 
 
-def mk_events(thorough):
+def mk_events(thorough, space="main"):
     evs = []
     for i in range(len(BODIES)):
         evs.append(["edit", i])
     evs.append(["touch", 1])
     evs.append(["touch", -1])
+    if space == "links":
+        # the symlink space: the same script addressed directly / through a symlink to the file / through a
+        # symlinked directory / through the symlink re-pointed to another, older real file; edits and
+        # touches always hit the TARGET s.xsh, the links keep their own old lstat mtime
+        for via in ("direct", "link", "dirlink", "link-other"):
+            evs.append(["run", list(DEFAULT), "fresh", via])
+        evs.append(["run", list(core.ALL_OFF), "fresh", "link"])
+        evs.append(["run", list(DEFAULT), "shadow", "link"])
+        evs.append(["del"])
+        return evs
     for sw in ALL_SW:
         evs.append(["run", list(sw), "fresh"])
     evs.append(["run", list(DEFAULT), "shadow"])
+    evs.append(["run", list(DEFAULT), "fresh", "link"])
     for j in range(len(CODES)):
         # the four cacheall x $XONSH_CACHE_EVERYTHING combinations for every code string and mode; in the
         # thorough tier all 16 combinations for code string 1 on the -c path (mode single) - the gating
@@ -89,18 +112,25 @@ def mk_events(thorough):
     for unit in UNITS:  # rewrite the header of the entry this unit uses (units sharing a file: offered once)
         for kind in ("xonsh", "py"):
             evs.append(["hdr", unit, kind])
+    # near-miss stamps: proper extensions / proper prefixes of the running version, one line at a time
+    # (all six variants x both entries are enumerated statically in part 2)
+    for unit, kind in NEAR_HDR_THOROUGH if thorough else NEAR_HDR_QUICK:
+        evs.append(["hdr", unit, kind])
     evs += [["ro"], ["rw"], ["del"]]
     return evs
 
 
 def _text_of(prov):
+    if prov == OTHER_PROV:
+        return core.OTHER_BODY
     return BODIES[int(prov[1:])] if prov[0] == "B" else CODES[int(prov[1:])]
 
 
 class Harness:
-    def __init__(self, thorough=False):
+    def __init__(self, thorough=False, space="main"):
         self.rig = core.Rig("c19")
-        self.events = mk_events(thorough)
+        self.space = space
+        self.events = mk_events(thorough, space)
         self.m = None
         self.trail = []
         self._memo = {}
@@ -109,8 +139,8 @@ class Harness:
         rig.write_source(BODIES[0], 10)
         rel = {}
         for u in UNITS:
-            if u == "S":
-                rel[u] = rig.discover("script")
+            if u in SCRIPT_UNITS:
+                rel[u] = rig.discover("script", via=SCRIPT_UNITS[u])
             else:
                 j, mode = u[1:].split(":")
                 rel[u] = rig.discover("code", CODES[int(j)], mode)
@@ -183,8 +213,8 @@ class Harness:
                 out.append([name, None])
             elif e is None:
                 out.append([name, k, "unaccounted"])
-            elif "S" in self.units_of[name]:
-                out.append([name, k, m["src"] - e["tick"], e["prov"], e["mode"], e["ns"]])
+            elif any(u in SCRIPT_UNITS for u in self.units_of[name]):
+                out.append([name, k, m["src"] - e["tick"], e["prov"], e["mode"], e["ns"], e.get("file")])
             else:
                 out.append([name, k, e["prov"], e["mode"], e["ns"]])
         extra = []
@@ -280,11 +310,19 @@ class Harness:
             rig.set_tick(p, tick)
             m["ent"][name] = {"tick": m["ent"][name]["tick"], "prov": "foreign:" + kind, "ns": None, "mode": None}
             return []
+        script = real = None
+        via = "direct"
+        src_tick = m["src"]
         if op == "run":
-            kind, unit, text, mode, sw, ns = "script", "S", rig.read_source(), "exec", _sw(ev[1]), ev[2]
-            prov = f"B{m['body']}"
-            if text != BODIES[m["body"]]:
-                raise common.ToolError("source on disk is not the body the model believes")
+            via = ev[3] if len(ev) > 3 else "direct"
+            script, real = rig.address(via)
+            kind, unit, mode, sw, ns = "script", VIA_UNIT[via], "exec", _sw(ev[1]), ev[2]
+            if real == rig.SRC:
+                text, prov = rig.read_source(), f"B{m['body']}"
+                if text != BODIES[m["body"]]:
+                    raise common.ToolError("source on disk is not the body the model believes")
+            else:  # the other real file: never edited, older than everything
+                text, prov, src_tick = core.OTHER_BODY, OTHER_PROV, core.OTHER_TICK
         elif op == "code":
             kind, unit, text, mode, sw, ns = "code", f"C{ev[1]}:{ev[2]}", CODES[ev[1]], ev[2], _sw(ev[3]), ev[4]
             prov = f"C{ev[1]}"
@@ -295,7 +333,7 @@ class Harness:
         pre_ent = copy.deepcopy(m["ent"][name])
         pre_kind = core.entry_kind(path)
         sigs = {n: self._sig(p) for n, p in self.paths.items()}
-        obs = rig.run_real(kind, text, sw, ns, mode)
+        obs = rig.run_real(kind, text, sw, ns, mode, script=script)
         # bookkeeping: which entries did the implementation (re)write / remove?
         for n, p in self.paths.items():
             s = self._sig(p)
@@ -306,7 +344,7 @@ class Harness:
                 continue
             if core.entry_kind(p) != "dir":
                 rig.set_tick(p, m["now"])
-            m["ent"][n] = {"tick": m["now"], "prov": prov if n == name else f"written-by-{unit}", "ns": ns, "mode": mode}
+            m["ent"][n] = {"tick": m["now"], "prov": prov if n == name else f"written-by-{unit}", "ns": ns, "mode": mode, "file": real}
         for dp, _dns, fns in os.walk(rig.data):  # anything else the run wrote also happened "now"
             for n in fns:
                 fp = os.path.join(dp, n)
@@ -314,15 +352,18 @@ class Harness:
                     rig.set_tick(fp, m["now"])
         if not check:
             return []
-        return self.judge(ev, kind, name, prov, text, mode, sw, ns, pre_ent, pre_kind, obs)
+        return self.judge(ev, kind, name, prov, text, mode, sw, ns, pre_ent, pre_kind, obs, via, script, real, src_tick)
 
     # ------------------------------------------------------------------ oracle
-    def judge(self, ev, kind, name, prov, text, mode, sw, ns, ent, pre_kind, obs):
+    def judge(self, ev, kind, name, prov, text, mode, sw, ns, ent, pre_kind, obs, via="direct", script=None, real=None, src_tick=None):
         m, rig = self.m, self.rig
-        exp = rig.reference(kind, text, ns, mode)
+        src_tick = m["src"] if src_tick is None else src_tick
+        exp = rig.reference(kind, text, ns, mode, script=script)
         fname = rig.SRC if kind == "script" else "<string>"
         viols = []
-        case = {"part": 1, "op": ev, "entry": name, "entry_before": ent, "entry_kind_before": pre_kind, "source_tick": m["src"], "readonly": m["ro"]}
+        case = {"part": 1, "space": self.space, "op": ev, "entry": name, "entry_before": ent, "entry_kind_before": pre_kind, "source_tick": src_tick, "readonly": m["ro"]}
+        if kind == "script":
+            case.update(run_as=script, real_file=real, symlink_own_tick=core.LINK_TICK if via != "direct" else None)
 
         def V(clause, key, observed, expected, note=""):
             viols.append({"key": key, "clause": clause, "case": dict(case), "observed": observed, "expected": expected, "note": note})
@@ -330,11 +371,14 @@ class Harness:
         ro = "+readonly-dir" if m["ro"] else ""
         from_text = ent is not None and bool(TEXT_PROV.match(str(ent["prov"])))
         older_text = from_text and ent["prov"] != prov
+        other_file = kind == "script" and from_text and ent.get("file") not in (None, real)
         if pre_kind == "absent":
             state = "no-entry"
         elif pre_kind in ("foreign-xonsh", "foreign-python", "damaged", "dir", "unreadable"):
             state = pre_kind
-        elif kind == "script" and ent is not None and ent["tick"] < m["src"]:
+        elif other_file:
+            state = "entry-of-other-script"  # two real files must never share: judged in full
+        elif kind == "script" and ent is not None and ent["tick"] < src_tick:
             state = "older-entry"
         elif older_text and kind == "script":
             state = "not-older-entry-of-other-text"
@@ -359,7 +403,7 @@ class Harness:
                 if older_text:
                     old = rig.simulate(_text_of(ent["prov"]), fname, ent["ns"], ent["mode"], ns)
                     if core.same_outcome(obs, old):
-                        sig = "stale" if kind == "script" and ent["prov"][0] == "B" else "ran-other-text"
+                        sig = "stale" if kind == "script" and ent["prov"][0] == "B" and not other_file else "ran-other-text"
                 elif ent["ns"] != ns or ent["mode"] != mode:
                     as_cached = rig.simulate(text, fname, ent["ns"], ent["mode"], ns)
                     if core.same_outcome(obs, as_cached):
@@ -372,13 +416,15 @@ class Harness:
                         else:
                             sig = "compiled-in-other-namespace-and-mode"
             if sig is None:
-                own = {"B0": "M0", "B1": "M1", "B2": "M2", "C0": "M1", "C1": "ka", "C2": "KA"}[prov]
+                own = {"B0": "M0", "B1": "M1", "B2": "M2", "B9": "MO", "C0": "M1", "C1": "ka", "C2": "KA"}[prov]
                 others = core.foreign_markers(obs, own)
                 if others:
                     sig = "ran-other-text"
                 else:
                     sig = "differs"
                 state += ro
+            if via != "direct" and (sig in ("stale", "differs", "ran-other-text") or sig.startswith("escaped-")):
+                state += f"+via-{via}"  # (the classified context findings keep their key however the script is addressed)
             V("a run with the cache equals the uncached run", f"cached-run-equals-uncached:{kind}:{state}:{sig}", obs, exp, note=f"switches(scriptcache,cacheall,$XONSH_CACHE_SCRIPTS,$XONSH_CACHE_EVERYTHING)={list(sw)} namespace={ns} mode={mode}")
         # rebuilt: foreign / damaged entries are replaced by a valid one where the cache is enabled for sure
         if pre_kind in ("foreign-xonsh", "foreign-python", "damaged") and not m["ro"] and core.documented_enabled(kind, mode, sw) and not obs["escaped"]:
@@ -393,10 +439,11 @@ class Harness:
 
 
 _THOROUGH = False
+_SPACE = "main"
 
 
 def _factory():
-    return Harness(_THOROUGH)
+    return Harness(_THOROUGH, _SPACE)
 
 
 def run(ctx):
@@ -411,6 +458,18 @@ def run(ctx):
     h = seqx._H
     for s in r["sample_histories"]:
         ctx.sample({"part": 1, "history": s})
+    # second, small history space: the script reached through symlinks (own alphabet, deeper)
+    global _SPACE
+    _SPACE = "links"
+    ldepth = ctx.pick(6, 7)
+    try:
+        rl = seqx.bfs(_factory, ldepth, ctx, budget_s=ctx.pick(30, 200), chunk=ctx.pick(2, 8))
+    finally:
+        _SPACE = "main"
+    ctx.add_violations(rl["violations"])
+    hl = seqx._H
+    for s in rl["sample_histories"][:2]:
+        ctx.sample({"part": 1, "space": "links", "history": s})
     from . import c19_fault
 
     p2 = c19_fault.run_part(ctx)
@@ -420,15 +479,17 @@ def run(ctx):
     p3 = c19_proc.run_part(ctx)
     runs = sum(1 for e in h.events if e[0] in ("run", "code"))
     ctx.coverage.update(
-        states=r["states"],
-        transitions=r["transitions"] + p2["evaluations"],
-        traces_validated_against_impl=r["transitions"] + p2["evaluations"],
+        states=r["states"] + rl["states"],
+        transitions=r["transitions"] + rl["transitions"] + p2["evaluations"],
+        traces_validated_against_impl=r["transitions"] + rl["transitions"] + p2["evaluations"],
         depth_completed=r["depth_completed"],
         depth_requested=depth,
-        exhaustive=r["exhaustive"] and p2["exhaustive"],
-        caps_hit=r["capped"],
+        exhaustive=r["exhaustive"] and rl["exhaustive"] and p2["exhaustive"],
+        caps_hit=r["capped"] or rl["capped"],
+        symlink_space={"states": rl["states"], "transitions": rl["transitions"], "depth_completed": rl["depth_completed"], "depth_requested": ldepth, "level_sizes": rl["level_sizes"], "alphabet": len(hl.events), "events": hl.events, "exhaustive": rl["exhaustive"]},
+        main_space_states=r["states"],
         level_sizes=r["level_sizes"],
-        history_transitions=r["transitions"],
+        history_transitions=r["transitions"] + rl["transitions"],
         alphabet=len(h.events),
         cache_entries_discovered_by_effect=h.entries,
         run_events_in_alphabet=runs,
